@@ -203,6 +203,17 @@ def r3(prog, run):
                          (C2S + '::onEnabled', {C2S + '::handleElement', C2S + '::onBind2Bound'})):
         run.instance(rid)
         callers = {top_function(prog, f).qname for f, i in prog.callers_by_qname(callee)}
+        # through members of the manager that were split off the handler (handleElement -> handleResumeResponse -> onResumed)
+        frontier = set(callers)
+        for _ in range(3):
+            more = set()
+            for q in frontier:
+                if q.startswith(C2S + '::') and q not in want:
+                    more |= {top_function(prog, f).qname for f, i in prog.callers_by_qname(q)}
+            if more <= callers:
+                break
+            callers |= more
+            frontier = more
         if want <= callers:
             run.ok(rid, prog.fn(callee).loc(), '%s reached from %s' % (callee.split('::')[-1], sorted(c.split('::')[-1] for c in callers)))
         else:
